@@ -13,7 +13,8 @@ RULE = ('(float32 distance row, N = report_closest). Tie-heavy rows (1..4 distin
         'rows of all-equal distances; random rows. Oracle = GambitV.closestOk (the list is the min(N,n)-prefix of the unique '
         '(distance, index)-sorted order) evaluated in Lean on the real closest_genomes list, its head = the real closest_match; each entry '
         'carries its exact distance and the taxon that distance alone assigns. thorough: subprocess runs under NPY_DISABLE_CPU_FEATURES '
-        'settings must give identical lists. Non-trivial = distinct row with a tie among the first N+1 entries.')
+        'settings must give identical lists. Also query() itself on scratch databases (reference i = {i}): one QueryParams object used for a small database and then a '
+        'larger one, several queries per call in different integer widths incl. signatures whose bytes coincide. Non-trivial = distinct row with a tie among the first N+1 entries.')
 TRUSTED = ['harness/props/c09.py + Driver/Tax.lean', 'np.argsort(kind="stable") is a stable sort (the list is checked against the Lean spec on every case)']
 ASSUMPTIONS = []
 
@@ -33,9 +34,57 @@ def real_item(dists, N, gtax=None, forest=None, strict=False):
 	return item, taxa, genomes
 
 
+def check_through_query(ctx, case):
+	"""gambit.query.query() on real databases whose reference i is the signature {i}: one QueryParams object used for a small database
+	first and a larger one next, several queries per call held in different integer widths (incl. signatures whose bytes coincide)"""
+	import numpy as np
+	import dbutil
+	from gambit import metric
+	from gambit.kmers import KmerSpec
+	from gambit.db import ReferenceDatabase
+	from gambit.query import query, QueryParams
+	sc = dbutil.Scratch('gv_c09_')
+	dbs = []
+	try:
+		lines, pf = [], []
+		N = case['N']
+		params = QueryParams(report_closest=N, classify_strict=bool(case.get('strict')), chunksize=case.get('chunk', 1000))
+		for n in case['sizes']:
+			d = sc.subdir()
+			dbutil.build_refdb(d, taxa=[{'name': 'root', 'key': 'root', 'parent': None, 'thr': 0.9, 'report': True}], genomes=[{'key': f'g{i}', 'taxon': 0} for i in range(n)],
+			                   kspec=KmerSpec(11, 'ATGAC'), sigs=[[i] for i in range(n)])
+			db = ReferenceDatabase.load_from_dir(d)
+			dbs.append(db)
+			qs = [np.array(v, dtype=dt) for v, dt in case['queries']]
+			res = query(db, qs, params if case.get('reuse_params') else QueryParams(report_closest=N, classify_strict=bool(case.get('strict')), chunksize=case.get('chunk', 1000)))
+			if len(res.items) != len(qs):
+				pf.append('number of result items differs from the number of queries')
+			keyix = {g.key: i for i, g in enumerate(db.genomes)}
+			for q, item in zip(qs, res.items):
+				row = np.array([metric.jaccarddist(q, np.array([i], dtype='u4')) for i in range(n)], dtype=np.float32)
+				lst = [keyix[m.genome.key] for m in item.closest_genomes]
+				for m, i in zip(item.closest_genomes, lst):
+					if np.float32(m.distance).view(np.uint32) != row[i].view(np.uint32):
+						pf.append(f'entry for genome {i} carries distance {m.distance}, the real distance is {row[i]}')
+				(ds_s,) = T.scale_all([float(x) for x in row])
+				cm = keyix[item.classifier_result.closest_match.genome.key]
+				lines.append(f'c09.closest {nats(ds_s)} {N} {nats(lst)} {cm}')
+		case['_nt'] = len(case['sizes']) > 1 or len(case['queries']) > 1
+		return lines, pf
+	finally:
+		for db in dbs:
+			try:
+				db.signatures.close(); db.session.close()
+			except Exception:
+				pass
+		sc.cleanup()
+
+
 def check(ctx, case):
 	import numpy as np
 	from gambit.classify import matching_taxon
+	if case.get('kind') == 'through-query':
+		return check_through_query(ctx, case)
 	dists = np.array(case['dists'], dtype=np.float32)
 	N = case['N']
 	forest = None
@@ -112,6 +161,27 @@ def run(ctx):
 			nt = rng.randint(1, 8)
 			case.update(parent=T.rand_forest(rng, nt), thr=T.rand_thr(rng, nt), report=[1] * nt, gtax=[rng.randrange(nt) for _ in range(n)])
 		sub(case, 'random')
+	for j in range(ctx.q(30, 300)):
+		if not ctx.time_left(0.95):
+			break
+		sizes = [rng.randint(1, 6), rng.randint(4, 12)] if rng.random() < 0.7 else [rng.randint(1, 12)]
+		if rng.random() < 0.3:
+			sizes = sizes[::-1]
+		queries = []
+		for _ in range(rng.randint(1, 4)):
+			r = rng.random()
+			if r < 0.4:
+				a, b = sorted(rng.sample(range(0, 12), 2))
+				queries.append([[a, b], 'u2']); queries.append([[a + b * 65536], 'u4'])        # same bytes, different signatures
+			else:
+				queries.append([sorted(rng.sample(range(0, 14), rng.randint(0, 5))), rng.choice(['u2', 'u4', 'u8', 'i8'])])
+		rng.shuffle(queries)
+		N = rng.choice([1, 2, 3, 5, 10])
+		reuse = rng.random() < 0.7
+		if j % 3 == 0:
+			sizes, N, reuse = [rng.randint(1, 4), rng.randint(6, 12)], rng.choice([5, 8, 10]), True      # fewer references than N first, more next
+		sub({'kind': 'through-query', 'sizes': sizes, 'N': N, 'queries': queries, 'reuse_params': reuse,
+		     'strict': rng.random() < 0.3, 'chunk': rng.choice([1000, 1, 3, None])}, 'through-query')
 	if ctx.tier == 'thorough':
 		_cpu_dispatch_stream(ctx)
 
